@@ -213,6 +213,10 @@ def _bind_target(t, value, out: dict):
     if isinstance(t, ast.Name):
         out.setdefault(t.id, value)
     elif isinstance(t, (ast.Tuple, ast.List)) and not any(isinstance(e, ast.Starred) for e in t.elts):
+        if isinstance(value, (ast.Tuple, ast.List)) and len(value.elts) == len(t.elts) and not any(isinstance(e, ast.Starred) for e in value.elts):
+            for e, v in zip(t.elts, value.elts):  # a, b = x, y
+                _bind_target(e, v, out)
+            return
         for i, e in enumerate(t.elts):
             _bind_target(e, ast.Subscript(value=value, slice=ast.Constant(value=i), ctx=ast.Load()), out)
 
